@@ -413,7 +413,7 @@ pub fn run(tier: Tier, seed: u64, replay: Option<String>) -> i32 {
     let nested: Vec<Pat> = pats.iter().step_by(7).cloned().collect();
     run_batch(&mut ctx, &nested, true, "nested");
     // random larger enumerations
-    let n = tier.pick(3000, 60000);
+    let n = tier.pick(40000, 400000);
     let mut drv = Driver::new(seed, 14, 200);
     let trees = drv.draw(n);
     let rnd: Vec<Pat> = trees
